@@ -462,3 +462,215 @@ Section Premul.
     rewrite !u16add_small by lia. lia.
   Qed.
 End Premul.
+
+(* ---- remaining premultiplied-result lemmas: multiply, screen and the blend_fn2! modes ----- *)
+Section Premul2.
+  Variables s d sa da : Z.
+  Hypothesis Hs : premul s sa.
+  Hypothesis Hd : premul d da.
+  Ltac start := pose proof Hs as Hs'; pose proof Hd as Hd'; prem.
+
+  Lemma multiply_premul : lowp_multiply s d sa da <= lowp_multiply sa da sa da.
+  Proof.
+    start. unfold lowp_multiply. rewrite !inv_eq by lia.
+    pose proof (multiply_bound s d sa da Hs' Hd').
+    pose proof (multiply_bound sa da sa da ltac:(unfold premul; lia) ltac:(unfold premul; lia)).
+    pose proof (xor_bound s d sa da Hs' Hd').
+    pose proof (xor_bound sa da sa da ltac:(unfold premul; lia) ltac:(unfold premul; lia)).
+    rewrite !u16mul_small by nia. nowrap.
+    apply div255_mono; [split; [lia|]|lia].
+    (* monotone in s and d: the coefficient of s is (255 - da) + d >= 0 etc. *)
+    assert (E1 : s * (255 - da + d) <= sa * (255 - da + d)) by (apply Z.mul_le_mono_nonneg_r; lia).
+    assert (E2 : d * (255 - sa + sa) <= da * (255 - sa + sa)) by (apply Z.mul_le_mono_nonneg_r; lia).
+    assert (E3 : s * (255 - da) + d * (255 - sa) + s * d = s * (255 - da + d) + d * (255 - sa)) by ring.
+    assert (E4 : sa * (255 - da + d) + d * (255 - sa) = sa * (255 - da) + d * (255 - sa + sa)) by ring.
+    assert (E5 : sa * (255 - da) + da * (255 - sa) + sa * da = sa * (255 - da) + da * (255 - sa + sa)) by ring.
+    lia.
+  Qed.
+
+  (* x - div255(x*y) is non-decreasing in x: the rounded product grows by at most 1 per step *)
+  Lemma sub_div_mono x x' y : 0 <= x <= x' -> x' <= 255 -> 0 <= y <= 255 ->
+    x - lowp_div255 (x * y) <= x' - lowp_div255 (x' * y).
+  Proof.
+    intros Hx Hx' Hy. rewrite !div255_eq by nia.
+    assert (E : x' * y + 255 = (x * y + 255) + (x' - x) * y) by ring. rewrite E.
+    assert ((x * y + 255 + (x' - x) * y) / 256 <= (x * y + 255 + (x' - x) * 256) / 256).
+    { apply Z.div_le_mono; [lia|]. nia. }
+    rewrite Z.div_add in H by lia. lia.
+  Qed.
+
+  Lemma screen_premul : lowp_screen s d sa da <= lowp_screen sa da sa da.
+  Proof.
+    start. unfold lowp_screen.
+    pose proof (div255_le_left s d ltac:(lia) ltac:(lia)). pose proof (div255_le_left sa da ltac:(lia) ltac:(lia)).
+    pose proof (div255_close (s * d) ltac:(nia)). pose proof (div255_close (sa * da) ltac:(nia)).
+    rewrite !u16mul_small by nia. rewrite !u16add_small by lia. rewrite !u16sub_small by lia.
+    (* s + d - q(s d) <= sa + d - q(sa d) <= sa + da - q(sa da) *)
+    pose proof (sub_div_mono s sa d ltac:(lia) ltac:(lia) ltac:(lia)).
+    pose proof (sub_div_mono d da sa ltac:(lia) ltac:(lia) ltac:(lia)).
+    replace (d * sa) with (sa * d) in * by lia. replace (da * sa) with (sa * da) in * by lia. lia.
+  Qed.
+End Premul2.
+
+Lemma div255_split a b n : 0 <= a -> 0 <= b -> a + b = 255 * n -> 0 <= n <= 255 ->
+  n <= lowp_div255 a + lowp_div255 b.
+Proof.
+  intros Ha Hb E Hn. rewrite !div255_eq by lia.
+  pose proof (Z.div_mod (a + 255) 256 ltac:(lia)). pose proof (Z.mod_pos_bound (a + 255) 256 ltac:(lia)).
+  pose proof (Z.div_mod (b + 255) 256 ltac:(lia)). pose proof (Z.mod_pos_bound (b + 255) 256 ltac:(lia)).
+  lia.
+Qed.
+
+Lemma div255_add255 x k : 0 <= x -> 0 <= k <= 255 -> 255 * k + x <= 65025 ->
+  lowp_div255 (255 * k + x) <= k + lowp_div255 x.
+Proof.
+  intros Hx Hk Hb. rewrite !div255_eq by lia.
+  replace (k + (x + 255) / 256) with ((x + 255 + k * 256) / 256) by (rewrite Z.div_add by lia; lia).
+  apply Z.div_le_mono; lia.
+Qed.
+
+Section Premul3.
+  Variables s d sa da : Z.
+  Hypothesis Hs : premul s sa.
+  Hypothesis Hd : premul d da.
+  Ltac start := pose proof Hs as Hs'; pose proof Hd as Hd'; prem.
+
+  (* alpha of the blend_fn2! modes *)
+  Definition alpha2 := u16add sa (lowp_div255 (u16mul da (lowp_inv sa))).
+
+  Lemma alpha2_eq : alpha2 = sa + lowp_div255 (da * (255 - sa)) /\ 0 <= alpha2 <= 255.
+  Proof.
+    start. unfold alpha2. rewrite inv_eq by lia. rewrite u16mul_small by nia.
+    assert (lowp_div255 (da * (255 - sa)) <= 255 - sa).
+    { apply Z.le_trans with (lowp_div255 (255 * (255 - sa))); [apply div255_mono; nia | rewrite div255_mul255; lia]. }
+    pose proof (div255_close (da * (255 - sa)) ltac:(nia)).
+    rewrite u16add_small by lia. lia.
+  Qed.
+
+  (* the two chains used by every blend_fn2! mode *)
+  Lemma chain_s : s - lowp_div255 (s * da) + d <= sa + lowp_div255 (da * (255 - sa)).
+  Proof.
+    start.
+    pose proof (sub_div_mono s sa da ltac:(lia) ltac:(lia) ltac:(lia)).
+    pose proof (div255_split (sa * da) (da * (255 - sa)) da ltac:(nia) ltac:(nia) ltac:(ring) ltac:(lia)).
+    lia.
+  Qed.
+  Lemma chain_d : d - lowp_div255 (d * sa) + s <= sa + lowp_div255 (da * (255 - sa)).
+  Proof.
+    start.
+    pose proof (sub_div_mono d da sa ltac:(lia) ltac:(lia) ltac:(lia)).
+    pose proof (div255_split (da * sa) (da * (255 - sa)) da ltac:(nia) ltac:(nia) ltac:(ring) ltac:(lia)).
+    lia.
+  Qed.
+
+  Lemma darken_premul : lowp_darken s d sa da <= alpha2.
+  Proof.
+    start. destruct alpha2_eq as (-> & _). unfold lowp_darken. rewrite !u16mul_small by nia.
+    rewrite div255_max by nia.
+    pose proof (div255_le_left s da ltac:(lia) ltac:(lia)). pose proof (div255_le_left d sa ltac:(lia) ltac:(lia)).
+    pose proof (div255_close (s * da) ltac:(nia)). pose proof (div255_close (d * sa) ltac:(nia)).
+    rewrite u16add_small by lia. rewrite u16sub_small by lia.
+    pose proof chain_s. lia.
+  Qed.
+
+  Lemma lighten_premul : lowp_lighten s d sa da <= alpha2.
+  Proof.
+    start. destruct alpha2_eq as (-> & _). unfold lowp_lighten. rewrite !u16mul_small by nia.
+    rewrite div255_min by nia.
+    pose proof (div255_le_left s da ltac:(lia) ltac:(lia)). pose proof (div255_le_left d sa ltac:(lia) ltac:(lia)).
+    pose proof (div255_close (s * da) ltac:(nia)). pose proof (div255_close (d * sa) ltac:(nia)).
+    rewrite u16add_small by lia. rewrite u16sub_small by lia.
+    pose proof chain_s. pose proof chain_d. lia.
+  Qed.
+
+  Lemma difference_premul : lowp_difference s d sa da <= alpha2.
+  Proof.
+    start. destruct alpha2_eq as (-> & _). unfold lowp_difference.
+    rewrite (u16mul_small s da), (u16mul_small d sa) by nia.
+    rewrite div255_min by nia.
+    pose proof (div255_le_left s da ltac:(lia) ltac:(lia)). pose proof (div255_le_left d sa ltac:(lia) ltac:(lia)).
+    pose proof (div255_close (s * da) ltac:(nia)). pose proof (div255_close (d * sa) ltac:(nia)).
+    rewrite (u16mul_small 2) by lia. rewrite u16add_small by lia. rewrite u16sub_small by lia.
+    pose proof chain_s. pose proof chain_d. lia.
+  Qed.
+
+  Lemma exclusion_premul : lowp_exclusion s d sa da <= alpha2.
+  Proof.
+    start. destruct alpha2_eq as (-> & _). unfold lowp_exclusion.
+    rewrite (u16mul_small s d) by nia.
+    pose proof (div255_le_left s d ltac:(lia) ltac:(lia)).
+    pose proof (div255_le_left d s ltac:(lia) ltac:(lia)). replace (d * s) with (s * d) in * by lia.
+    pose proof (div255_close (s * d) ltac:(nia)).
+    rewrite (u16mul_small 2) by lia. rewrite u16add_small by lia. rewrite u16sub_small by lia.
+    (* s + d - 2q(sd) <= s + d - q(sd) <= sa + da - q(sa da) <= alpha *)
+    pose proof (sub_div_mono s sa d ltac:(lia) ltac:(lia) ltac:(lia)).
+    pose proof (sub_div_mono d da sa ltac:(lia) ltac:(lia) ltac:(lia)).
+    replace (d * sa) with (sa * d) in * by lia. replace (da * sa) with (sa * da) in * by lia.
+    pose proof (div255_split (sa * da) (da * (255 - sa)) da ltac:(nia) ltac:(nia) ltac:(ring) ltac:(lia)).
+    lia.
+  Qed.
+
+  (* hard_light / overlay: one div255 of N with N <= 255 sa + da (255 - sa) *)
+  Lemma two_branch_premul (c : bool) :
+    (c = true -> 0 <= 2 * s * d <= sa * da /\ 0 <= s * (255 - da) + d * (255 - sa) + 2 * s * d <= 65025) ->
+    (c = false -> 2 * (sa - s) <= sa \/ 2 * (da - d) <= da) ->
+    lowp_div255 (u16add (u16add (u16mul s (lowp_inv da)) (u16mul d (lowp_inv sa)))
+         (if c then u16mul (u16mul 2 s) d
+          else u16sub (u16mul sa da) (u16mul (u16mul 2 (u16sub sa s)) (u16sub da d)))) <= alpha2.
+  Proof.
+    intros Hdark Hlite. start. destruct alpha2_eq as (-> & _).
+    rewrite !inv_eq by lia. pose proof (xor_bound s d sa da Hs' Hd') as X.
+    assert (S1 : s * (255 - da) <= sa * (255 - da)) by (apply Z.mul_le_mono_nonneg_r; lia).
+    assert (S2 : d * (255 - sa) <= da * (255 - sa)) by (apply Z.mul_le_mono_nonneg_r; lia).
+    assert (S3 : sa * (255 - da) + da * (255 - sa) + sa * da = 255 * sa + da * (255 - sa)) by ring.
+    assert (S4 : 0 <= da * (255 - sa)) by (apply Z.mul_nonneg_nonneg; lia).
+    assert (S5 : 255 * sa + da * (255 - sa) <= 65025) by nia.
+    assert (S6 : 0 <= s * (255 - da) <= 65025) by nia.
+    assert (S7 : 0 <= d * (255 - sa) <= 65025) by nia.
+    destruct c.
+    - destruct (Hdark eq_refl) as (D1 & D2).
+      assert (0 <= sa * da <= 65025) by nia.
+      rewrite (u16mul_small 2 s) by lia. rewrite (u16mul_small (2 * s) d) by lia.
+      rewrite (u16mul_small s (255 - da)), (u16mul_small d (255 - sa)) by lia.
+      rewrite (u16add_small (s * (255 - da))) by lia. rewrite u16add_small by lia.
+      apply Z.le_trans with (lowp_div255 (255 * sa + da * (255 - sa))); [apply div255_mono; lia|].
+      apply div255_add255; lia.
+    - specialize (Hlite eq_refl).
+      assert (U : 0 <= 2 * (sa - s) * (da - d)) by (apply Z.mul_nonneg_nonneg; lia).
+      pose proof (lite_inner_bound s d sa da Hs' Hd' U Hlite) as L.
+      destruct (lite_total_bound s d sa da Hs' Hd') as [T | T]; [|lia].
+      assert (0 <= sa * da <= 65025) by nia.
+      rewrite (u16sub_small sa s), (u16sub_small da d) by lia.
+      rewrite (u16mul_small 2 (sa - s)) by lia. rewrite (u16mul_small (2 * (sa - s)) (da - d)) by lia.
+      rewrite (u16mul_small sa da) by lia. rewrite (u16sub_small (sa * da)) by lia.
+      rewrite (u16mul_small s (255 - da)), (u16mul_small d (255 - sa)) by lia.
+      rewrite (u16add_small (s * (255 - da))) by lia. rewrite u16add_small by lia.
+      apply Z.le_trans with (lowp_div255 (255 * sa + da * (255 - sa))); [apply div255_mono; lia|].
+      apply div255_add255; lia.
+  Qed.
+
+  Lemma hard_light_premul : lowp_hard_light s d sa da <= alpha2.
+  Proof.
+    unfold lowp_hard_light. start.
+    rewrite (u16add_small s s) by lia. replace (s + s) with (2 * s) by lia.
+    apply two_branch_premul.
+    - intros H. apply Z.leb_le in H. split; [|apply hl_dark_bound; auto].
+      assert (2 * s * d <= sa * d) by (apply Z.mul_le_mono_nonneg_r; lia).
+      assert (sa * d <= sa * da) by (apply Z.mul_le_mono_nonneg_l; lia).
+      assert (0 <= 2 * s * d) by (apply Z.mul_nonneg_nonneg; lia). lia.
+    - intros H. apply Z.leb_gt in H. left. lia.
+  Qed.
+
+  Lemma overlay_premul : lowp_overlay s d sa da <= alpha2.
+  Proof.
+    unfold lowp_overlay. start.
+    rewrite (u16add_small d d) by lia. replace (d + d) with (2 * d) by lia.
+    apply two_branch_premul.
+    - intros H. apply Z.leb_le in H. split; [|apply ov_dark_bound; auto].
+      assert (E : 2 * s * d = s * (2 * d)) by ring. rewrite E.
+      assert (s * (2 * d) <= s * da) by (apply Z.mul_le_mono_nonneg_l; lia).
+      assert (s * da <= sa * da) by (apply Z.mul_le_mono_nonneg_r; lia).
+      assert (0 <= s * (2 * d)) by (apply Z.mul_nonneg_nonneg; lia). lia.
+    - intros H. apply Z.leb_gt in H. right. lia.
+  Qed.
+End Premul3.
